@@ -55,10 +55,15 @@ pub proof fn lemma_in_words_push(v: Seq<usize>, x: usize)
 pub proof fn lemma_quote_lit() ensures "\""@ == seq!['"'], "\""@.len() == 1 { reveal_strlit("\""); assert("\""@ =~= seq!['"']); }
 pub open spec fn has_op(s: Seq<char>) -> bool { s.contains('|') || s.contains('&') || s.contains('<') || s.contains('>') }
 //@FN has_operator_char
-
+// ---- shared with the other expansion unit (common.ASSIGN_PREFIX) ----
 pub uninterp spec fn spec_is_assign(t: Seq<char>) -> bool;
 #[verifier::external_body]
 pub fn is_assignment_word(text: &str) -> (r: bool) ensures r == spec_is_assign(text@) { unimplemented!() }
+pub open spec fn assign_prefix(toks: Seq<Token>, k: int) -> bool {
+    forall|j: int| 0 <= j <= k && j < toks.len() ==> (#[trigger] toks[j]).0@.len() == 0 && spec_is_assign(toks[j].1@)
+}
+//@FN in_assignment_prefix
+
 pub uninterp spec fn spec_should_dollar(t: Seq<char>) -> bool;
 #[verifier::external_body]
 pub fn should_do_dollar_command_extension(line: &str) -> (r: bool) ensures r == spec_should_dollar(line@) { unimplemented!() }
@@ -100,7 +105,7 @@ impl VxRegex {
 pub fn vx_clone_cap(c: &VxCap) -> (r: VxCap) ensures r.g1@ == c.g1@, r.g2@ == c.g2@, r.g3@ == c.g3@ { unimplemented!() }
 
 // ghost: how many inner commands were planned and run
-// op_words: the unquoted words (other than NAME=value assignment words, which are taken off the line before operators are looked for)
+// op_words: the unquoted words (other than the untagged NAME=value words the line starts with, which are taken off it before operators are looked for)
 // into which an inner command's output brought an operator character (C13)
 pub ghost struct SubLog { pub planned: int, pub ran: int, pub op_words: Set<int>, pub order: Seq<int> }
 impl CommandLine {
@@ -257,7 +262,7 @@ dollar = Fn(S, 'do_command_substitution_for_dollar', props=('C11',),
     ghost_args={'from_line': 'Tracked(lg)', 'run_pipeline': 'Tracked(lg)'},
     hints={'fn-entry': 'note_pass(lg, 1);',
            # ghost record, taken from the data flow (not from the code's own flag): this word received an operator character from an output
-           'after-call:vx_trim': 'if has_op(spec_trim(cmd_result.stdout@)) && sep@.len() == 0 && !spec_is_assign(token@) { note_op_word(lg, idx as int); }',
+           'after-call:vx_trim': 'if has_op(spec_trim(cmd_result.stdout@)) && sep@.len() == 0 && !assign_prefix(tokens@, idx as int) { note_op_word(lg, idx as int); }',
            'before-text:line.push_str(&head);': 'RAW: let ghost __line0 = line@;',
            # THE STEP: the text in front of the substitution and the output are appended literally; only the tail is scanned again
            'after-text:rest = tail;':
@@ -282,7 +287,7 @@ dollar = Fn(S, 'do_command_substitution_for_dollar', props=('C11',),
         # the scan of one word terminates: what is left to scan gets shorter with every substitution
         1: Loop(invariant=[
             ('C11.inv.dollar.once', 'lg.ran - old(lg).ran <= lg.planned - old(lg).planned && lg.order == old(lg).order.push(1)'),
-            ('C13.inv.dollar.ops_inner', 'forall|k: int| lg.op_words.contains(k) ==> old(lg).op_words.contains(k) || in_words(data_words@, k) || (k == idx as int && got_operator && sep@.len() == 0 && !spec_is_assign(token@))'),
+            ('C13.inv.dollar.ops_inner', 'forall|k: int| lg.op_words.contains(k) ==> old(lg).op_words.contains(k) || in_words(data_words@, k) || (k == idx as int && got_operator && sep@.len() == 0 && !assign_prefix(tokens@, idx as int))'),
         ], decreases='rest@.len()'),
         2: Loop(invariant=[
             ('C11+C13.inv.dollar.frame', 'tokens@.len() == old(tokens)@.len() && forall|k: int| 0 <= k < tokens@.len() ==> (#[trigger] tokens@[k]).0@ == old(tokens)@[k].0@ '
@@ -334,7 +339,7 @@ both = Fn(S, 'do_command_substitution', add_params='Tracked(lg): Tracked<&mut Su
     ghost_args={'do_command_substitution_for_dot': 'Tracked(lg)', 'do_command_substitution_for_dollar': 'Tracked(lg)'},
     ensures=[('C11.subst.backquote_pass_first_then_the_dollar_pass', 'final(lg).order == old(lg).order.push(0).push(1)')])
 
-UNIT = Unit('U-EXP3', TEMPLATE, fns=[common.has_operator_fn(), split_first, dollar, dot, both, Fn('src/types.rs', 'new', impl='CommandResult')],
+UNIT = Unit('U-EXP3', TEMPLATE, fns=[common.has_operator_fn(), common.in_assignment_prefix_fn(), split_first, dollar, dot, both, Fn('src/types.rs', 'new', impl='CommandResult')],
             types=[TypeItem('src/types.rs', 'struct', 'Command'), TypeItem('src/types.rs', 'struct', 'CommandLine'), TypeItem('src/types.rs', 'struct', 'CommandResult')],
             props=('C11', 'C13', 'C01', 'C05'))
 TRUSTED = common.TRUSTED_STR + common.TRUSTED_TOKEN + [
